@@ -95,7 +95,7 @@ pub fn specs(tier: &str) -> Vec<ExpSpec> {
     let mut v = Vec::new();
     for (ft, dq, dt) in [(FatType::Fat12, 4, 6), (FatType::Fat16, 4, 5), (FatType::Fat32, 4, 5)] {
         let cfg = vol::tiny_with(ft, 8, 16);
-        v.push(ExpSpec { cfg, alphabet: alphabet(512), depth: if th { dt } else { dq } });
+        v.push(ExpSpec::new(cfg, alphabet(512), if th { dt } else { dq }));
     }
     v
 }
